@@ -743,7 +743,7 @@ DLLIMPORT int cfg_parse_boolean(const char *s)
 	return CFG_FAIL;
 }
 
-static void cfg_init_defaults(cfg_t *cfg)
+static int cfg_init_defaults(cfg_t *cfg)
 {
 	int i;
 
@@ -799,6 +799,7 @@ static void cfg_init_defaults(cfg_t *cfg)
 				else
 					xstate = 2;
 
+				errno = 0;
 				fp = fmemopen(buf, strlen(buf), "r");
 				if (!fp) {
 					/*
@@ -819,6 +820,10 @@ static void cfg_init_defaults(cfg_t *cfg)
 					fclose(fp);
 				}
 
+				/* running out of memory is not a programming error */
+				if (ret == STATE_ERROR && errno == ENOMEM)
+					return CFG_FAIL;
+
 				if (ret == STATE_ERROR) {
 					/*
 					 * If there was an error parsing the default string,
@@ -833,21 +838,23 @@ static void cfg_init_defaults(cfg_t *cfg)
 					abort();
 				}
 			} else {
+				int rc = CFG_SUCCESS;
+
 				switch (cfg->opts[i].type) {
 				case CFGT_INT:
-					cfg_opt_setnint(&cfg->opts[i], cfg->opts[i].def.number, 0);
+					rc = cfg_opt_setnint(&cfg->opts[i], cfg->opts[i].def.number, 0);
 					break;
 
 				case CFGT_FLOAT:
-					cfg_opt_setnfloat(&cfg->opts[i], cfg->opts[i].def.fpnumber, 0);
+					rc = cfg_opt_setnfloat(&cfg->opts[i], cfg->opts[i].def.fpnumber, 0);
 					break;
 
 				case CFGT_BOOL:
-					cfg_opt_setnbool(&cfg->opts[i], cfg->opts[i].def.boolean, 0);
+					rc = cfg_opt_setnbool(&cfg->opts[i], cfg->opts[i].def.boolean, 0);
 					break;
 
 				case CFGT_STR:
-					cfg_opt_setnstr(&cfg->opts[i], cfg->opts[i].def.string, 0);
+					rc = cfg_opt_setnstr(&cfg->opts[i], cfg->opts[i].def.string, 0);
 					break;
 
 				case CFGT_FUNC:
@@ -858,6 +865,8 @@ static void cfg_init_defaults(cfg_t *cfg)
 					cfg_error(cfg, "internal error in cfg_init_defaults(%s)", cfg->opts[i].name);
 					break;
 				}
+				if (rc != CFG_SUCCESS)
+					return CFG_FAIL;
 			}
 
 			/* The default value should only be returned if no value
@@ -868,10 +877,13 @@ static void cfg_init_defaults(cfg_t *cfg)
 			cfg->opts[i].flags |= CFGF_RESET;
 			cfg->opts[i].flags &= ~CFGF_MODIFIED;
 		} else if (!is_set(CFGF_MULTI, cfg->opts[i].flags)) {
-			cfg_setopt(cfg, &cfg->opts[i], NULL);
+			if (!cfg_setopt(cfg, &cfg->opts[i], NULL))
+				return CFG_FAIL;
 			cfg->opts[i].flags |= CFGF_DEFINIT;
 		}
 	}
+
+	return CFG_SUCCESS;
 }
 
 /* Find or create the value slot that a call of cfg_setopt() stores into.
@@ -1062,60 +1074,63 @@ DLLIMPORT cfg_value_t *cfg_setopt(cfg_t *cfg, cfg_opt_t *opt, const char *value)
 			return NULL;
 		break;
 
-	case CFGT_SEC:
+	case CFGT_SEC: {
+		cfg_t *sec = NULL;
+
+		/* An existing section without CFGF_MULTI is re-entered; every
+		 * other instance is built completely, defaults included,
+		 * before it becomes reachable from the option. */
+		if (is_set(CFGF_MULTI, opt->flags) || opt->simple_value.ptr ||
+		    opt->nvalues == 0 || !opt->values[0]->section) {
+			sec = calloc(1, sizeof(cfg_t));
+			if (!sec)
+				return NULL;
+
+			sec->flags = cfg->flags;
+			if (is_set(CFGF_KEYSTRVAL, opt->flags))
+				sec->flags |= CFGF_KEYSTRVAL;
+			sec->line = cfg->line;
+			sec->errfunc = cfg->errfunc;
+			sec->name = strdup(opt->name);
+			sec->filename = cfg->filename ? strdup(cfg->filename) : NULL;
+			sec->title = value ? strdup(value) : NULL;
+			sec->opts = cfg_dupopt_array(opt->subopts);
+			if (!sec->name || !sec->opts ||
+			    (cfg->filename && !sec->filename) || (value && !sec->title)) {
+				if (sec->opts)
+					cfg_free_opt_array(sec->opts);
+				free(sec->title);
+				free(sec->filename);
+				free(sec->name);
+				free(sec);
+				return NULL;
+			}
+
+			if (!is_set(CFGF_DEFINIT, opt->flags) && cfg_init_defaults(sec) != CFG_SUCCESS) {
+				cfg_free(sec);
+				return NULL;
+			}
+		}
+
 		val = cfg_setopt_slot(cfg, opt, value);
-		if (!val)
+		if (!val) {
+			if (sec)
+				cfg_free(sec);
 			return NULL;
-		if (is_set(CFGF_MULTI, opt->flags) || val->section == NULL) {
+		}
+
+		if (sec) {
 			if (val->section) {
 				val->section->path = NULL; /* Global search path */
 				cfg_free(val->section);
 			}
-			val->section = calloc(1, sizeof(cfg_t));
-			if (!val->section)
+			val->section = sec;
+		} else if (!is_set(CFGF_DEFINIT, opt->flags)) {
+			if (cfg_init_defaults(val->section) != CFG_SUCCESS)
 				return NULL;
-
-			val->section->name = strdup(opt->name);
-			if (!val->section->name) {
-				free(val->section);
-				return NULL;
-			}
-
-			val->section->flags = cfg->flags;
-			if (is_set(CFGF_KEYSTRVAL, opt->flags))
-				val->section->flags |= CFGF_KEYSTRVAL;
-
-			val->section->filename = cfg->filename ? strdup(cfg->filename) : NULL;
-			if (cfg->filename && !val->section->filename) {
-				free(val->section->name);
-				free(val->section);
-				return NULL;
-			}
-
-			val->section->line = cfg->line;
-			val->section->errfunc = cfg->errfunc;
-			val->section->title = value ? strdup(value) : NULL;
-			if (value && !val->section->title) {
-				free(val->section->filename);
-				free(val->section->name);
-				free(val->section);
-				return NULL;
-			}
-
-			val->section->opts = cfg_dupopt_array(opt->subopts);
-			if (!val->section->opts) {
-				if (val->section->title)
-					free(val->section->title);
-				if (val->section->filename)
-					free(val->section->filename);
-				free(val->section->name);
-				free(val->section);
-				return NULL;
-			}
 		}
-		if (!is_set(CFGF_DEFINIT, opt->flags))
-			cfg_init_defaults(val->section);
 		break;
+	}
 
 	case CFGT_BOOL:
 		if (opt->parsecb) {
@@ -1939,7 +1954,10 @@ DLLIMPORT cfg_t *cfg_init(cfg_opt_t *opts, cfg_flag_t flags)
 	bindtextdomain(PACKAGE, LOCALEDIR);
 #endif
 
-	cfg_init_defaults(cfg);
+	if (cfg_init_defaults(cfg) != CFG_SUCCESS) {
+		cfg_free(cfg);
+		return NULL;
+	}
 
 	return cfg;
 }
